@@ -47,7 +47,7 @@ V = lambda n: ("var", n)  # noqa: E731
 
 
 def cases(tier):
-    return 480 if tier == "quick" else 64000
+    return 480 if tier == "quick" else 32000
 
 
 def keep_strategy():
